@@ -22,7 +22,12 @@ from warnings import warn
 from .collections import PVLObject, PVLGroup, Quantity
 from .grammar import PVLGrammar, ODLGrammar, PDSGrammar, ISISGrammar
 from .token import Token
-from .decoder import PVLDecoder, ODLDecoder, PDSLabelDecoder
+from .decoder import PVLDecoder, ODLDecoder, PDSLabelDecoder, OmniDecoder
+from .grammar import OmniGrammar
+
+
+_omni_grammar = OmniGrammar()
+_omni_decoder = OmniDecoder(grammar=_omni_grammar)
 
 
 class QuantTup(namedtuple("QuantTup", ["cls", "value_prop", "units_prop"])):
@@ -558,7 +563,14 @@ class PVLEncoder(object):
                 return True
 
         tok = Token(s, grammar=self.grammar, decoder=self.decoder)
-        return not tok.is_unquoted_string()
+        if not tok.is_unquoted_string():
+            return True
+
+        # The default loader is more permissive than the strict dialects
+        # (e.g. it reads 12:00+01 as a zoned time in PVL-text, too), so
+        # also quote what it would not read back as the same string.
+        omni = Token(s, grammar=_omni_grammar, decoder=_omni_decoder)
+        return not omni.is_unquoted_string()
 
     def encode_string(self, value) -> str:
         """Returns a ``str`` formatted as a PVL String based
